@@ -18,6 +18,7 @@ import (
 	"encoding/hex"
 	"errors"
 	"fmt"
+	"net"
 	"net/http"
 	"sort"
 	"strconv"
@@ -33,6 +34,7 @@ import (
 	"github.com/quay/claircore/internal/wart"
 	"github.com/quay/claircore/libindex"
 	"github.com/quay/claircore/libvuln/updates"
+	"github.com/quay/claircore/verifharness/internal/hx"
 	"github.com/quay/claircore/verifharness/internal/memstore"
 )
 
@@ -49,7 +51,21 @@ type ScannerSpec struct {
 	Kind    byte   // 'p' package, 'd' distribution, 'r' repository
 	Name    string // [a-z0-9_]+
 	Version string // [a-z0-9_]+
+	// Flags (a property of the scanner implementation / the deployment, in this order):
+	//  N  needs the network: while the world's network is down its Scan returns
+	//     what it found so far (its first item) together with a *net.AddrError
+	//  C  implements indexer.ConfigurableScanner
+	//  R  implements indexer.RPCScanner
+	//  V  the deployment supplies a configuration function for it (Options.ScannerConfig)
+	//  X  its Configure returns an error
+	Flags string
 }
+
+func (s ScannerSpec) Has(f byte) bool { return strings.IndexByte(s.Flags, f) >= 0 }
+
+// Off: libindex drops the scanner from the LayerScanner (its Configure is
+// called and fails) while it stays in the list of configured scanners.
+func (s ScannerSpec) Off() bool { return s.Has('X') && (s.Has('C') || s.Has('R')) }
 
 // DefRepo: a package scanner whose name has an odd byte sum also implements
 // indexer.DefaultRepoScanner (a property of the scanner, not of the config).
@@ -67,6 +83,9 @@ func (s ScannerSpec) KindName() string {
 }
 
 func (s ScannerSpec) String() string {
+	if s.Flags != "" {
+		return fmt.Sprintf("%d/%c/%s/%s/%s", s.Eco, s.Kind, s.Name, s.Version, s.Flags)
+	}
 	return fmt.Sprintf("%d/%c/%s/%s", s.Eco, s.Kind, s.Name, s.Version)
 }
 
@@ -92,14 +111,18 @@ func ParseConfig(s string) (Config, error) {
 	var out Config
 	for _, p := range strings.Split(s, ",") {
 		f := strings.Split(p, "/")
-		if len(f) != 4 || len(f[1]) != 1 {
+		if (len(f) != 4 && len(f) != 5) || len(f[1]) != 1 {
 			return nil, fmt.Errorf("bad scanner spec %q", p)
 		}
 		e, err := strconv.Atoi(f[0])
 		if err != nil {
 			return nil, err
 		}
-		out = append(out, ScannerSpec{Eco: e, Kind: f[1][0], Name: f[2], Version: f[3]})
+		sp := ScannerSpec{Eco: e, Kind: f[1][0], Name: f[2], Version: f[3]}
+		if len(f) == 5 {
+			sp.Flags = f[4]
+		}
+		out = append(out, sp)
 	}
 	return out, nil
 }
@@ -122,6 +145,16 @@ func Items(name, version string, l int) []int {
 		out = append(out, (2*l+3*a+5*v+7*i)%10)
 	}
 	return out
+}
+
+// ItemsNet is Items for a scanner that needs the network: with the network
+// down it finds only its first item.
+func ItemsNet(name, version string, l int, needsNet, netDown bool) []int {
+	it := Items(name, version, l)
+	if needsNet && netDown && len(it) > 1 {
+		it = it[:1]
+	}
+	return it
 }
 
 // DefRepoItem is the repository a DefaultRepoScanner adds.
@@ -226,6 +259,7 @@ var (
 type ScanEvent struct {
 	Layer   int
 	Scanner memstore.ScannerKey
+	Down    bool // the scanner needs the network and it was down
 }
 
 // World is one store plus the currently configured Libindex.
@@ -253,10 +287,20 @@ type World struct {
 	trace   []byte
 	Scans   []ScanEvent // since reset
 	Fetches []int       // layer numbers realized, since reset
-	opScans int
-	opFetch int
-	callCtx context.Context // the caller's context of the running Index call
-	ph      *phase          // coalescer synchronisation of the running Index call
+	// NetDown: scanners flagged N cannot reach the network (their Scan returns a *net.AddrError)
+	NetDown bool
+	// ConfigEvents are the Configure calls of the last libindex.New, in call order
+	ConfigEvents []ConfigEvent
+	// during libindex.New: scanner-constructor calls of the stub ecosystems
+	ctorCalls    int
+	ctorFailAt   int // -1: none
+	registered   bool
+	registerFail bool
+	inNew        bool
+	opScans      int
+	opFetch      int
+	callCtx      context.Context // the caller's context of the running Index call
+	ph           *phase          // coalescer synchronisation of the running Index call
 }
 
 // phase orders the stub coalescers of one Index call: in the schedule the
@@ -343,6 +387,15 @@ func (w *World) enter(ctx context.Context, letter byte) (error, bool) {
 }
 
 func (w *World) storeHook(ctx context.Context, c memstore.Call) memstore.Verdict {
+	if c.Method == "RegisterScanners" {
+		w.mu.Lock()
+		defer w.mu.Unlock()
+		w.registered = true
+		if w.registerFail {
+			return memstore.Verdict{Err: errInjected}
+		}
+		return memstore.Verdict{}
+	}
 	l, ok := letters[c.Method]
 	if !ok {
 		return memstore.Verdict{}
@@ -379,26 +432,74 @@ func (s *stub) scan(ctx context.Context, l *claircore.Layer) ([]int, error) {
 		return nil, fmt.Errorf("stub scanner %s: layer %s was not fetched", s.spec.Name, l.Hash)
 	}
 	n := s.w.layerNo[l.Hash.String()]
-	s.w.Scans = append(s.w.Scans, ScanEvent{Layer: n, Scanner: memstore.ScannerKey{Name: s.Name(), Version: s.Version(), Kind: s.Kind()}})
+	down := s.w.NetDown && s.spec.Has('N')
+	s.w.Scans = append(s.w.Scans, ScanEvent{Layer: n, Scanner: memstore.ScannerKey{Name: s.Name(), Version: s.Version(), Kind: s.Kind()}, Down: down})
 	s.w.mu.Unlock()
 	if err != nil {
 		return nil, err
 	}
-	return Items(s.spec.Name, s.spec.Version, n), nil
+	items := ItemsNet(s.spec.Name, s.spec.Version, n, s.spec.Has('N'), down)
+	if down {
+		// "scanner not able to access resources": result.Do swallows exactly this error type
+		var aerr error = &net.AddrError{Err: "no route to host", Addr: "stub.invalid:443"}
+		if n%2 == 1 {
+			aerr = fmt.Errorf("stub scanner %s: fetching metadata: %w", s.spec.Name, aerr)
+		}
+		return items, aerr
+	}
+	return items, nil
+}
+
+// swallowed reports whether err is of the one type result.Do forgives.
+func swallowed(err error) bool {
+	var a *net.AddrError
+	return errors.As(err, &a)
+}
+
+// StubConfig is what a configurable stub scanner asks its ConfigDeserializer to fill.
+type StubConfig struct{ Token string }
+
+// ConfigEvent records one Configure call made by libindex.New.
+type ConfigEvent struct {
+	Kind   byte
+	Name   string
+	How    byte // 'C' ConfigurableScanner, 'R' RPCScanner
+	Token  bool // the deployment's configuration function was the one passed in
+	Client bool // an *http.Client was passed
+}
+
+func (e ConfigEvent) String() string {
+	return fmt.Sprintf("%c.%s.%c.%s.%s", e.Kind, e.Name, e.How, b01(e.Token), b01(e.Client))
+}
+
+func (s *stub) configure(f indexer.ConfigDeserializer, how byte, cl *http.Client) error {
+	var c StubConfig
+	if f != nil {
+		if err := f(&c); err != nil {
+			return err
+		}
+	}
+	s.w.mu.Lock()
+	s.w.ConfigEvents = append(s.w.ConfigEvents, ConfigEvent{Kind: s.spec.Kind, Name: s.spec.Name, How: how, Token: c.Token == s.spec.Name+"-cfg", Client: cl != nil})
+	s.w.mu.Unlock()
+	if s.spec.Has('X') {
+		return errors.New("stub scanner: configuration rejected")
+	}
+	return nil
 }
 
 type pkgStub struct{ stub }
 
 func (s *pkgStub) Scan(ctx context.Context, l *claircore.Layer) ([]*claircore.Package, error) {
 	items, err := s.scan(ctx, l)
-	if err != nil || len(items) == 0 {
+	if (err != nil && !swallowed(err)) || len(items) == 0 {
 		return nil, err
 	}
 	out := make([]*claircore.Package, len(items))
 	for i, it := range items {
 		out[i] = &claircore.Package{Name: "p" + strconv.Itoa(it), Version: "1.0", Kind: claircore.BINARY, Arch: "x", PackageDB: "db/" + s.spec.Name}
 	}
-	return out, nil
+	return out, err
 }
 
 type pkgRepoStub struct{ pkgStub }
@@ -411,29 +512,75 @@ type distStub struct{ stub }
 
 func (s *distStub) Scan(ctx context.Context, l *claircore.Layer) ([]*claircore.Distribution, error) {
 	items, err := s.scan(ctx, l)
-	if err != nil || len(items) == 0 {
+	if (err != nil && !swallowed(err)) || len(items) == 0 {
 		return nil, err
 	}
 	out := make([]*claircore.Distribution, len(items))
 	for i, it := range items {
 		out[i] = &claircore.Distribution{Name: "d" + strconv.Itoa(it), DID: "d", Version: "1"}
 	}
-	return out, nil
+	return out, err
 }
 
 type repoStub struct{ stub }
 
 func (s *repoStub) Scan(ctx context.Context, l *claircore.Layer) ([]*claircore.Repository, error) {
 	items, err := s.scan(ctx, l)
-	if err != nil || len(items) == 0 {
+	if (err != nil && !swallowed(err)) || len(items) == 0 {
 		return nil, err
 	}
 	out := make([]*claircore.Repository, len(items))
 	for i, it := range items {
 		out[i] = &claircore.Repository{Name: "r" + strconv.Itoa(it), Key: "k"}
 	}
-	return out, nil
+	return out, err
 }
+
+// The same scanners implementing indexer.ConfigurableScanner (suffix C) or
+// indexer.RPCScanner (suffix R). The two interfaces share the method name, so
+// no type can implement both.
+type (
+	pkgStubC     struct{ pkgStub }
+	pkgStubR     struct{ pkgStub }
+	pkgRepoStubC struct{ pkgRepoStub }
+	pkgRepoStubR struct{ pkgRepoStub }
+	distStubC    struct{ distStub }
+	distStubR    struct{ distStub }
+	repoStubC    struct{ repoStub }
+	repoStubR    struct{ repoStub }
+)
+
+func (s *pkgStubC) Configure(_ context.Context, f indexer.ConfigDeserializer) error {
+	return s.configure(f, 'C', nil)
+}
+func (s *pkgStubR) Configure(_ context.Context, f indexer.ConfigDeserializer, c *http.Client) error {
+	return s.configure(f, 'R', c)
+}
+func (s *pkgRepoStubC) Configure(_ context.Context, f indexer.ConfigDeserializer) error {
+	return s.configure(f, 'C', nil)
+}
+func (s *pkgRepoStubR) Configure(_ context.Context, f indexer.ConfigDeserializer, c *http.Client) error {
+	return s.configure(f, 'R', c)
+}
+func (s *distStubC) Configure(_ context.Context, f indexer.ConfigDeserializer) error {
+	return s.configure(f, 'C', nil)
+}
+func (s *distStubR) Configure(_ context.Context, f indexer.ConfigDeserializer, c *http.Client) error {
+	return s.configure(f, 'R', c)
+}
+func (s *repoStubC) Configure(_ context.Context, f indexer.ConfigDeserializer) error {
+	return s.configure(f, 'C', nil)
+}
+func (s *repoStubR) Configure(_ context.Context, f indexer.ConfigDeserializer, c *http.Client) error {
+	return s.configure(f, 'R', c)
+}
+
+var (
+	_ indexer.ConfigurableScanner = (*pkgStubC)(nil)
+	_ indexer.RPCScanner          = (*pkgStubR)(nil)
+	_ indexer.DefaultRepoScanner  = (*pkgRepoStubC)(nil)
+	_ indexer.DefaultRepoScanner  = (*pkgRepoStubR)(nil)
+)
 
 // stubCoalescer reports every package with the first layer it was seen in,
 // every distribution and every repository. It does not depend on the order of
@@ -599,28 +746,89 @@ func (w *World) ecosystems(cfg Config) []*indexer.Ecosystem {
 				continue
 			}
 			st := stub{w: w, spec: s}
+			how := byte(0)
+			switch {
+			case s.Has('C'):
+				how = 'C'
+			case s.Has('R'):
+				how = 'R'
+			}
 			switch s.Kind {
 			case 'p':
-				if s.DefRepo() {
+				switch {
+				case s.DefRepo() && how == 'C':
+					ps = append(ps, &pkgRepoStubC{pkgRepoStub{pkgStub{st}}})
+				case s.DefRepo() && how == 'R':
+					ps = append(ps, &pkgRepoStubR{pkgRepoStub{pkgStub{st}}})
+				case s.DefRepo():
 					ps = append(ps, &pkgRepoStub{pkgStub{st}})
-				} else {
+				case how == 'C':
+					ps = append(ps, &pkgStubC{pkgStub{st}})
+				case how == 'R':
+					ps = append(ps, &pkgStubR{pkgStub{st}})
+				default:
 					ps = append(ps, &pkgStub{st})
 				}
 			case 'd':
-				ds = append(ds, &distStub{st})
+				switch how {
+				case 'C':
+					ds = append(ds, &distStubC{distStub{st}})
+				case 'R':
+					ds = append(ds, &distStubR{distStub{st}})
+				default:
+					ds = append(ds, &distStub{st})
+				}
 			default:
-				rs = append(rs, &repoStub{st})
+				switch how {
+				case 'C':
+					rs = append(rs, &repoStubC{repoStub{st}})
+				case 'R':
+					rs = append(rs, &repoStubR{repoStub{st}})
+				default:
+					rs = append(rs, &repoStub{st})
+				}
 			}
 		}
 		ecos[i] = &indexer.Ecosystem{
-			Name:                 "stub" + strconv.Itoa(i),
-			PackageScanners:      func(context.Context) ([]indexer.PackageScanner, error) { return ps, nil },
-			DistributionScanners: func(context.Context) ([]indexer.DistributionScanner, error) { return ds, nil },
-			RepositoryScanners:   func(context.Context) ([]indexer.RepositoryScanner, error) { return rs, nil },
-			Coalescer:            func(context.Context) (indexer.Coalescer, error) { return &stubCoalescer{w: w, idx: i}, nil },
+			Name: "stub" + strconv.Itoa(i),
+			PackageScanners: func(context.Context) ([]indexer.PackageScanner, error) {
+				if err := w.ctor(); err != nil {
+					return nil, err
+				}
+				return ps, nil
+			},
+			DistributionScanners: func(context.Context) ([]indexer.DistributionScanner, error) {
+				if err := w.ctor(); err != nil {
+					return nil, err
+				}
+				return ds, nil
+			},
+			RepositoryScanners: func(context.Context) ([]indexer.RepositoryScanner, error) {
+				if err := w.ctor(); err != nil {
+					return nil, err
+				}
+				return rs, nil
+			},
+			Coalescer: func(context.Context) (indexer.Coalescer, error) { return &stubCoalescer{w: w, idx: i}, nil },
 		}
 	}
 	return ecos
+}
+
+// ctor counts a scanner-constructor call of a stub ecosystem and fails the one
+// the running New was told to fail.
+func (w *World) ctor() error {
+	w.mu.Lock()
+	defer w.mu.Unlock()
+	if !w.inNew {
+		return nil
+	}
+	k := w.ctorCalls
+	w.ctorCalls++
+	if k == w.ctorFailAt {
+		return errors.New("stub ecosystem: scanner constructor failed")
+	}
+	return nil
 }
 
 // Keys lists the configured scanners in the order libindex merges them
@@ -636,10 +844,16 @@ func KeysOf(cfg Config) []memstore.ScannerKey {
 			n = s.Eco + 1
 		}
 	}
+	seen := map[string]bool{}
 	for _, k := range []byte{'p', 'd', 'r'} {
 		for e := 0; e < n; e++ {
 			for _, s := range cfg {
 				if s.Kind == k && s.Eco == e {
+					// EcosystemsToScanners keeps the first scanner of a name per kind
+					if seen[string(k)+"/"+s.Name] {
+						continue
+					}
+					seen[string(k)+"/"+s.Name] = true
 					out = append(out, memstore.ScannerKey{Name: s.Name, Version: s.Version, Kind: s.KindName()})
 				}
 			}
@@ -648,31 +862,140 @@ func KeysOf(cfg Config) []memstore.ScannerKey {
 	return append(out, memstore.ScannerKey{Name: "whiteout", Version: "1", Kind: "file"})
 }
 
+// SpecOf finds the specification of a configured scanner.
+func SpecOf(cfg Config, k memstore.ScannerKey) (ScannerSpec, bool) {
+	for _, s := range cfg {
+		if s.Name == k.Name && s.Version == k.Version && s.KindName() == k.Kind {
+			return s, true
+		}
+	}
+	return ScannerSpec{}, false
+}
+
 // Configure runs libindex.New with the stub ecosystems on the world's store
 // and returns the index of the first configuration since reset with the same
 // state token.
 func (w *World) Configure(cfg Config) (string, error) {
+	out := w.New(NewFaults{CtorFailAt: -1}, cfg)
+	if strings.HasPrefix(out, "err") {
+		return "", errors.New(out)
+	}
+	return out, nil
+}
+
+// NewFaults says what is wrong with the arguments / the environment of one
+// libindex.New call.
+type NewFaults struct {
+	NoLocker, NoStore, NoArena, NoClient bool
+	RegisterFails                        bool
+	CtorFailAt                           int // the k-th scanner-constructor call of the stub ecosystems fails; -1: none
+}
+
+func (f NewFaults) String() string {
+	var p []string
+	for _, x := range []struct {
+		on bool
+		s  string
+	}{{f.NoLocker, "l"}, {f.NoStore, "s"}, {f.NoArena, "a"}, {f.NoClient, "h"}, {f.RegisterFails, "r"}} {
+		if x.on {
+			p = append(p, x.s)
+		}
+	}
+	if f.CtorFailAt >= 0 {
+		p = append(p, "c"+strconv.Itoa(f.CtorFailAt))
+	}
+	if len(p) == 0 {
+		return "-"
+	}
+	return strings.Join(p, ",")
+}
+
+// NewOp renders the operation line.
+func NewOp(f NewFaults, cfg Config) string { return "new " + f.String() + " " + cfg.String() }
+
+// New runs libindex.New on the world's store. On success the world is
+// reconfigured and the answer is that of Configure; on failure the previous
+// Libindex stays in use and the answer tells how far New got.
+func (w *World) New(nf NewFaults, cfg Config) string {
 	ctx := context.Background()
 	opts := &libindex.Options{
-		Store:                w.Store,
-		Locker:               updates.NewLocalLockSource(),
-		FetchArena:           &arena{w: w},
 		LayerScanConcurrency: max(1, w.Concurrency),
 		Ecosystems:           w.ecosystems(cfg),
 	}
-	lib, err := libindex.New(ctx, opts, http.DefaultClient)
-	if err != nil {
-		return "", err
+	if !nf.NoStore {
+		opts.Store = w.Store
+	}
+	if !nf.NoLocker {
+		opts.Locker = updates.NewLocalLockSource()
+	}
+	if !nf.NoArena {
+		opts.FetchArena = &arena{w: w}
+	}
+	client := http.DefaultClient
+	if nf.NoClient {
+		client = nil
+	}
+	opts.ScannerConfig.Package = map[string]func(interface{}) error{}
+	opts.ScannerConfig.Dist = map[string]func(interface{}) error{}
+	opts.ScannerConfig.Repo = map[string]func(interface{}) error{}
+	for _, s := range cfg {
+		if !s.Has('V') {
+			continue
+		}
+		name := s.Name
+		f := func(v interface{}) error {
+			if c, ok := v.(*StubConfig); ok {
+				c.Token = name + "-cfg"
+			}
+			return nil
+		}
+		switch s.Kind {
+		case 'p':
+			opts.ScannerConfig.Package[name] = f
+		case 'd':
+			opts.ScannerConfig.Dist[name] = f
+		default:
+			opts.ScannerConfig.Repo[name] = f
+		}
+	}
+	w.mu.Lock()
+	w.ConfigEvents = nil
+	w.inNew, w.ctorCalls, w.ctorFailAt, w.registered, w.registerFail = true, 0, nf.CtorFailAt, false, nf.RegisterFails
+	w.mu.Unlock()
+	var lib *libindex.Libindex
+	var err error
+	panicked := hx.Guard(func() string { lib, err = libindex.New(ctx, opts, client); return "" })
+	w.mu.Lock()
+	w.inNew = false
+	evs := make([]string, len(w.ConfigEvents))
+	for i, e := range w.ConfigEvents {
+		evs[i] = e.String()
+	}
+	ct, rg := w.ctorCalls, w.registered
+	w.mu.Unlock()
+	cf := "-"
+	if len(evs) > 0 {
+		cf = strings.Join(evs, ",")
+	}
+	switch {
+	case panicked != "":
+		return "panic"
+	case err != nil && lib != nil:
+		return "err-with-lib"
+	case err != nil:
+		return fmt.Sprintf("err ct=%d rg=%s cf=%s", ct, b01(rg), cf)
+	case lib == nil:
+		return "nil-without-err"
 	}
 	w.Lib, w.Cfg = lib, cfg
 	tok, _ := lib.State(ctx)
 	w.Tokens = append(w.Tokens, tok)
 	for i, t := range w.Tokens {
 		if t == tok {
-			return "tok " + strconv.Itoa(i), nil
+			return "tok " + strconv.Itoa(i) + " cf=" + cf
 		}
 	}
-	return "", errors.New("unreachable")
+	return "unreachable"
 }
 
 // Result is the observation of one Index call.
